@@ -268,27 +268,52 @@ class SignatureInfo:
     # resulting `Partial`.
     parameters = list(self.parameters.values())
     positional_values = []
+    # Unset positional parameters that have been skipped so far. A later value
+    # that is passed by position must not be bound to one of them.
+    unset_params = []
     for index, param in enumerate(parameters):
       if param.kind == param.POSITIONAL_ONLY:
         if index in arguments:
+          self._append_defaults(unset_params, positional_values)
           positional_values.append(arguments[index])
           del arguments[index]
         elif include_no_value:
           positional_values.append(self.get_default(index, NO_VALUE))
+        else:
+          unset_params.append(param)
       if param.kind == param.POSITIONAL_OR_KEYWORD:
         if include_pos_or_kw_in_args or self.var_positional_start in arguments:
           if param.name in arguments:
+            self._append_defaults(unset_params, positional_values)
             positional_values.append(arguments[param.name])
             del arguments[param.name]
           elif include_no_value:
             positional_values.append(self.get_default(index, NO_VALUE))
+          else:
+            unset_params.append(param)
     if self.var_positional_start is not None:
       index = self.var_positional_start
+      if index in arguments:
+        self._append_defaults(unset_params, positional_values)
       while index in arguments:
         positional_values.append(arguments[index])
         del arguments[index]
         index += 1
     return positional_values, arguments
+
+  @staticmethod
+  def _append_defaults(
+      unset_params: List[inspect.Parameter], positional_values: List[Any]
+  ) -> None:
+    """Passes the defaults of skipped positional parameters explicitly."""
+    for param in unset_params:
+      if param.default is param.empty:
+        raise TypeError(
+            f'Missing value for positional parameter {param.name!r}: a later '
+            'argument is passed by position, and would be bound to it.'
+        )
+      positional_values.append(param.default)
+    unset_params.clear()
 
   def validate_param_name(self, name, fn_or_cls) -> None:
     """Raises an error if ``name`` is not a valid parameter name."""
